@@ -100,7 +100,10 @@ def run_place(ctx, case):
         cols["object_id"][i] = 77
         cols["class"][i] = 88
         cols[feature][i] = cmap(p["colour"])
-    motl = cryomotl.Motl(motlutil.df_from_cols(cols))
+    # row labels are not part of a particle list (sorted / filtered tables keep their old labels)
+    imode = (case["variant"] // 3) % 4
+    motl = cryomotl.Motl(motlutil.vary_index(motlutil.df_from_cols(cols), case["variant"] // 3))
+    index_kind = {0: "default", 1: "default", 2: "permuted", 3: "gapped"}[imode] if n > 0 else "default"
     cdims = tuple(case["cdims"])
     form = case["variant"] % 3
 
@@ -114,7 +117,7 @@ def run_place(ctx, case):
         return cryomap.place_object(tmpl.copy(), motl, volume_shape=list(cdims), feature_to_color=feature)
 
     out, err = core.call_guarded(call)
-    sig = {"op": "place_object", "poses": "one" if n == 1 else "many"}
+    sig = {"op": "place_object", "poses": "one" if n == 1 else "many", "index": index_kind}
     if err is not None:
         ctx.fail("call_raises", err, case, sig)
     else:
